@@ -57,17 +57,18 @@ structure Sctl where
 deriving Inhabited
 
 /-- `finalize`: unsubscribe every registered upstream (holding the map's read lock), clear the map,
-    unsubscribe the subscriber, run `on_finalize` once (holding its write lock). -/
+    unsubscribe the subscriber if it is still subscribed, run `on_finalize` once (holding its write lock). -/
 def Sctl.finalize (sc : Sctl) : Prog :=
   .lockAcq (.cell sc.map) false <|
   .cellRead sc.map true fun m =>
     forEach (amapVals m) (fun o => .obsUnsub o.toInt.toNat .done) ;;
     (.lockRel (.cell sc.map) <|
      .cellWrite sc.map false .lnil <|
-     .obsUnsub sc.sub <|
-     .lockAcq (.slot sc.fin) true <|
+     .obsIsSub sc.sub fun b =>
+     (if b then Prog.obsUnsub sc.sub .done else .done) ;;
+     (.lockAcq (.slot sc.fin) true <|
      .slotCall sc.fin .unit true <|
-     .lockRel (.slot sc.fin) .done)
+     .lockRel (.slot sc.fin) .done))
 
 def sctlNew (s : Nat) (k : Sctl → Prog) : Prog :=
   .cellNew (.int 0) fun serial => .cellNew .lnil fun map => .slotNew fun fin =>
